@@ -291,7 +291,7 @@ theorem multiCreateLoop_not_select (T : PrecTables) : ∀ (fuel : Nat) (acc : Li
 
 /-- the same SELECT tree up to token locations -/
 def _root_.Sqlgrep.PSelect.SameUpToLoc (q q' : PSelect) : Prop :=
-  eraseProj q.projections = eraseProj q'.projections ∧ q.fromTable = q'.fromTable ∧ q.fromFile = q'.fromFile ∧
+  eraseProjH q.projections = eraseProjH q'.projections ∧ q.fromTable = q'.fromTable ∧ q.fromFile = q'.fromFile ∧
   q.distinct = q'.distinct ∧
   Clauses.Same ⟨q.filter, q.groupBy, q.having, q.join, q.limit⟩ ⟨q'.filter, q'.groupBy, q'.having, q'.join, q'.limit⟩
 
